@@ -70,7 +70,11 @@ func Insert(id ID, data []byte) ([]byte, error) {
 	// We manually create and add the JSON as this is just simply the quickest
 	// way to do it.
 	data = bytes.TrimLeft(data, "{")
-	sdata = append(bytes.TrimRight(sdata, "}"), byte(','))
+	sdata = bytes.TrimRight(sdata, "}")
+	if !bytes.Equal(bytes.TrimSpace(data), []byte("}")) {
+		// only separate when the object has members of its own
+		sdata = append(sdata, byte(','))
+	}
 	data = append(sdata, data...)
 
 	return data, nil
